@@ -6,5 +6,6 @@ From NV.gen Require Import Gen_C03.
 Lemma gen_c03_spec :
   gen_commit_needs_prepared = true /\ gen_vote_needs_preparing = true /\ gen_prepare_writes_store = false /\
   gen_abort_applies_undo = true /\ gen_timeouts_spare_committing = true /\ gen_participant_remembers = true /\
-  gen_abort_refuses_committing = true /\ gen_recover_shape = true /\ gen_sweeps_keep_decided = true.
+  gen_abort_refuses_committing = true /\ gen_recover_shape = true /\ gen_sweeps_keep_decided = true /\
+  gen_abort_always_remembers = true /\ gen_apply_whole_batch = true.
 Proof. repeat split; reflexivity. Qed.
